@@ -160,6 +160,10 @@ public:
     // fault placement: the next segment from the broker arrives within +-1 ns of this instant (a pending client timer deadline)
     // instead of after its seeded latency; 0 = off. Set by the driver (FRaceTimer with b = 1), consumed by the next broker_send.
     ns_t align_next_b2c = 0;
+    // fault placement: the process is descheduled for this long right after the next bytes from the broker have arrived and the
+    // pending read has been completed (its handler is queued, not run): data sits unprocessed while timers expire. 0 = off.
+    ns_t stall_on_next_arrival = 0;
+    std::function<void(ns_t)> stall_cb;          // performs the stall (the driver owns the clock bookkeeping and the marks)
 
     std::vector<std::unique_ptr<Conn>> conns;
     std::vector<WriteRec> writes;
